@@ -1,5 +1,7 @@
 import DFV.JsonField
 import DFV.Model.C20
+import DFV.Model.C20Session
+import DFV.Model.C20Heap
 namespace DFV.Drv
 open Lean DFV DFV.C20
 
@@ -71,6 +73,70 @@ def optsOfJson (j : Json) : R Opts := do
     | some v => natOfJson v
   pure { mult, filter, aux, vdimsArg, useColor, clim, pick }
 
+/-- a caller's keyword dictionary -/
+def kwOfJson (j : Json) : R Kw := do
+  let filter ← optFld j "filter_field"
+  let colorField ← optFld j "color_field"
+  let useColor ← match fldOpt j "use_color" with
+    | none => pure none
+    | some v => some <$> boolOfJson v
+  let colorbar ← match fldOpt j "colorbar" with
+    | none => pure none
+    | some v => some <$> boolOfJson v
+  let cbLabel ← match fldOpt j "colorbar_label" with
+    | none => pure none
+    | some v => some <$> strOfJson v
+  let vdims ← optStrList j "vdims"
+  pure { filter, useColor, colorbar, colorField, cbLabel, vdims }
+
+def optNat (j : Json) (k : String) : R (Option Nat) :=
+  match fldOpt j k with
+  | none => pure none
+  | some v => some <$> natOfJson v
+
+/-- one `field.mpl(...)` request of a session; `fields` are the fields of the session -/
+def reqOfJson (fields : List Fld) (j : Json) : R Req := do
+  let fi ← natOfJson (← fld j "field")
+  let field ← match fields[fi]? with
+    | some f => pure f
+    | none => throw "session: field index out of range"
+  let mult ← match fldOpt j "mult" with
+    | none => pure none
+    | some v => some <$> ratOfJson v
+  let skw ← optNat j "skw"
+  let vkw ← optNat j "vkw"
+  let pick ← match fldOpt j "pick" with
+    | none => pure 0
+    | some v => natOfJson v
+  pure { field, mult, skw, vkw, pick }
+
+/-! heap version of a plot request: the arrays of the field, the filter and the colour field are
+put on a heap of buffers, the heap plot function runs, and the buffers are compared afterwards -/
+
+/-- `field.array` as a buffer indexed `[i, j, c]` -/
+def arrBuf (f : Fld) : ABuf := fun i => some ((f.data.get (i.take 2)).getD (i.getD 2 0) 0)
+
+/-- `field.valid` as a buffer of ones and zeros indexed `[i, j]` -/
+def valBuf (f : Fld) : ABuf := fun i => some (if f.valid.get (i.take 2) then 1 else 0)
+
+def hfldOf (f : Fld) (a : Nat) : HFld :=
+  { mesh := f.mesh, nvdim := f.nvdim, arr := a, val := a + 1, vdims := f.vdims, vmap := f.vmap,
+    unit := f.unit }
+
+/-- heap holding the arrays of the given fields, two buffers per field, in order -/
+def heapOf (fs : List Fld) : AHeap := fs.flatMap fun f => [arrBuf f, valBuf f]
+
+/-- does the buffer at address `a` hold the same entries in both heaps (over the index range of
+an array of shape `shape`)? -/
+def sameBuf (h h' : AHeap) (a : Nat) (shape : List Nat) : Bool :=
+  (indicesC shape).all fun i => h.buf a i == h'.buf a i
+
+/-- names of the input arrays that differ after the call -/
+def mutatedNames (h h' : AHeap) (named : List (String × Fld)) : List String :=
+  (named.zipIdx.flatMap fun (p, k) =>
+    (if sameBuf h h' (2 * k) (p.2.mesh.n ++ [p.2.nvdim]) then [] else [p.1 ++ ".array"]) ++
+    (if sameBuf h h' (2 * k + 1) p.2.mesh.n then [] else [p.1 ++ ".valid"]))
+
 end C20J
 
 open C20J in
@@ -109,7 +175,44 @@ def c20 (op : String) (j : Json) : Option (R Json) :=
         | k => throw s!"unknown plot kind {k}"
       let vd := match o.vdimsArg with | some l => l | none => inplaneVdims f
       let mj := match setupMultiplier f o.mult with | .ok m => ratToJson m | .error _ => .null
-      pure (((resJ (listJ callJ) res).setObjVal! "leftover" (strsJ (leftover f vd))).setObjVal! "mult" mj)
+      let out := ((resJ (listJ callJ) res).setObjVal! "leftover" (strsJ (leftover f vd))).setObjVal! "mult" mj
+      -- the same request on the heap model (arrays as objects): result and which input arrays changed
+      let named : List (String × Fld) := [("field", f)] ++
+        (match o.filter with | some g => [("filter", g)] | none => []) ++
+        (match o.aux with | some g => [("aux", g)] | none => [])
+      let h0 := heapOf (named.map (·.2))
+      let fltH := o.filter.map fun g => hfldOf g 2
+      let auxH := o.aux.map fun g => hfldOf g (if o.filter.isSome then 4 else 2)
+      let ho : HOpts := { mult := o.mult, filter := fltH, aux := auxH, vdimsArg := o.vdimsArg,
+                          useColor := o.useColor, pick := o.pick }
+      let hres : Option (AHeap × M (List PlotCall)) := match kind with
+        | "scalar" => some (scalarH h0 (hfldOf f 0) ho)
+        | "contour" => some (contourH h0 (hfldOf f 0) ho)
+        | "vector" => some (vectorH h0 (hfldOf f 0) ho)
+        | "lightness" => some (lightnessH (fun q => (ratSqrt? q).getD 0) h0 (hfldOf f 0) ho o.clim)
+        | "default" => some (defaultH h0 (hfldOf f 0) ho)
+        | _ => none
+      match hres with
+      | none => pure out
+      | some (h1, r) =>
+        pure ((out.setObjVal! "heap" (resJ (listJ callJ) r)).setObjVal! "mutated"
+          (strsJ (mutatedNames h0 h1 named)))
+  | "session" => some do
+      -- a history of `field.mpl(...)` calls sharing the caller's dictionary objects `dicts`
+      let fields ← listOf fldOfJson (← fld j "fields")
+      let dicts ← listOf kwOfJson (← fld j "dicts")
+      let reqs ← listOf (reqOfJson fields) (← fld j "reqs")
+      let out := runSession dicts reqs
+      let mults := reqs.map fun r =>
+        match setupMultiplier r.field r.mult with | .ok m => ratToJson m | .error _ => .null
+      let lefts := reqs.map fun r => strsJ (leftover r.field (inplaneVdims r.field))
+      pure (Json.mkObj [
+        ("results", listJ (resJ (listJ callJ)) out.2),
+        ("mults", .arr mults.toArray),
+        ("leftovers", .arr lefts.toArray),
+        -- the caller's dictionaries after the session: which keys they hold
+        ("keys", listJ (fun k => strsJ k.keys) (out.1.take dicts.length)),
+        ("nstore", Json.num (JsonNumber.fromNat out.1.length))])
   | _ => none
 
 end DFV.Drv
